@@ -2,6 +2,7 @@ package gen
 
 import (
 	"strings"
+	"unicode"
 )
 
 // Opts selects the constructs a generated program may use.
@@ -116,6 +117,22 @@ func (g *G) flush() {
 	g.pend[top] = nil
 }
 
+func swapCase(s string) string {
+	return strings.Map(func(r rune) rune {
+		if unicode.IsUpper(r) {
+			return unicode.ToLower(r)
+		}
+		return unicode.ToUpper(r)
+	}, s)
+}
+
+// parenUpset: go.sh's parenthesis counter is off after a case item inside a subshell earlier in the same
+// command (a grammar deviation outside the claimed properties): "((" is not recognised any more then.
+func (g *G) parenUpset() bool {
+	t := g.b.String()
+	return strings.Contains(t, "(") && strings.Contains(t, "case")
+}
+
 func (g *G) anyPending() bool {
 	for _, p := range g.pend {
 		if len(p) != 0 {
@@ -183,14 +200,24 @@ func (g *G) sep() {
 
 // closeSep writes the separator required before a closing reserved word (fi, done, }, then, do, ...).
 func (g *G) closeSep() {
-	if g.O.MultiLine && g.canNewline() && (g.pending() || g.S.Chance(1, 2)) {
+	if g.O.MultiLine && g.canNewline() && (g.pending() && !g.S.Chance(1, 4) || !g.pending() && g.S.Chance(1, 2)) {
 		g.optBlank()
 		g.newline()
+		for g.S.Chance(1, 8) {
+			// further empty or comment-only lines before the closing word
+			if g.O.InnerComments && g.S.Chance(1, 2) {
+				g.b.WriteString(g.S.Pick([]string{"", " ", "\t"}))
+				g.comment()
+			}
+			g.newline()
+		}
 		if g.S.Chance(1, 3) {
 			g.b.WriteString(strings.Repeat(" ", g.S.Range(1, 4)))
 		}
 		return
 	}
+	// (also with a here-document pending from earlier on the line: "cat <<E; for i in 1 2; do": the body
+	// starts after the next newline token, wherever that is)
 	g.optBlank()
 	g.b.WriteString("; ")
 }
@@ -389,7 +416,7 @@ func (g *G) arithExp() {
 // arithCompose builds an arithmetic expression from operands (numbers, names, parameter expansions in
 // all forms including empty words, nested arithmetic, parentheses) with varying blanks around the operators.
 func (g *G) arithCompose(hash bool) string {
-	atoms := []string{"1", "23", "x", "y", "$x", "${x}", "${x-}", "${y+}", "${x:-3}", "${x-2}", "${y=}", "${x:+}", "${x?}", "$((1))", "$(( x ))", "$1", "${2}"}
+	atoms := []string{"1", "23", "x", "y", "$x", "${x}", "${x-}", "${y+}", "${x:-3}", "${x-2}", "${y=}", "${x:+}", "${x?}", "$((1))", "$(( x ))", "$1", "${2}", "\"\"1", "\"\" 1", "''2", "\"1\"", "\"$x\"", "'3'"}
 	if hash {
 		// (not where go.sh lexes "((" as nested subshells: there parentheses and '#' mean something else)
 		atoms = append(atoms, "( 1 + 2 )", "(x)", "${x#}", "${x%}", "${#x}", "${x##}", "${x%%}")
@@ -586,7 +613,7 @@ func (g *G) hdBody(op, delim string, quoted bool) string {
 			pool = 26
 		}
 		if g.S.Chance(1, 12) {
-			pool = 31 // includes the rare lines 26..30 (and, for C18/C01 only, 24/25 when allowed)
+			pool = 32 // includes the rare lines 26..31 (and, for C18/C01 only, 24/25 when allowed)
 		}
 		if g.O.HeredocBodyPool == 1 {
 			pool = 4
@@ -647,6 +674,12 @@ func (g *G) hdBody(op, delim string, quoted bool) string {
 				line = "$x\t" + delim
 			} else {
 				line = "$x " + delim
+			}
+		case 31:
+			// the delimiter in another letter case is not the delimiter
+			line = swapCase(delim)
+			if line == delim {
+				line = "body line"
 			}
 		case 30:
 			line = "$(()) empty arithmetic"
@@ -867,7 +900,7 @@ func (g *G) command() {
 				g.sepAfterOpen()
 				if g.O.ArithCmd && g.S.Chance(1, 6) {
 					// an arithmetic command inside a case item (the unmatched ')' of the pattern precedes it)
-					if g.inCmdSubst == 0 && !g.inBackquote && g.inSubshell == 0 && !strings.Contains(g.b.String(), "(") {
+					if g.inCmdSubst == 0 && !g.inBackquote && g.inSubshell == 0 && !g.parenUpset() {
 						g.b.WriteString(g.S.Pick([]string{"((x++))", "(( n <<= 1 ))", "((1))"}))
 					} else {
 						g.b.WriteString("((x++))")
@@ -915,7 +948,7 @@ func (g *G) command() {
 		}
 	case 8: // arithmetic command
 		if g.O.ArithCmd {
-			recognised := g.inCmdSubst == 0 && !g.inBackquote && g.inSubshell == 0 && !strings.Contains(g.b.String(), "(")
+			recognised := g.inCmdSubst == 0 && !g.inBackquote && g.inSubshell == 0 && !g.parenUpset()
 			g.b.WriteString("((")
 			apool := []string{" x + 1 ", "x=1", " x = y * 2 ", "x++", "1"}
 			if recognised {
